@@ -37,6 +37,10 @@ def load(path: str | os.PathLike, format: str | None = None) -> _core.Model:
     # Set the base directory for external data to the directory of the ONNX file
     # so that relative paths are resolved correctly.
     _external_data.set_base_dir(model.graph, base_dir)
+    # Function bodies can hold external tensors too (Constant nodes, initializers of
+    # control-flow bodies): they are relative to the same file
+    for function in model.functions.values():
+        _external_data.set_base_dir(function.graph, base_dir)
     return model
 
 
